@@ -1137,7 +1137,7 @@ def _reversed(interp, args, kwargs, node):
 def _agg(name):
     def h(interp, args, kwargs, node):
         if len(args) > 1:
-            vals = list(args)
+            vals = [Const(a.lin[1]) if isinstance(a, LinV) and F.lin_is_const(a.lin) else a for a in args]
             if all(isinstance(a, Const) for a in vals):
                 return Const((min if name == "min" else max)(a.value for a in vals))
             ls = [interp.as_lin(a) for a in vals]
